@@ -479,12 +479,3 @@ func fletcherLib(data []byte) uint32 {
 	return s2<<16 | s1
 }
 
-func (d *dec) fixedArrayChunks(o *Object, sp *dataspace, lay *layoutMsg, chunkBytes uint64, rank int, what string) {
-	d.unsupported("fixed array chunk index")
-}
-func (d *dec) extArrayChunks(o *Object, sp *dataspace, lay *layoutMsg, chunkBytes uint64, rank int, what string) {
-	d.unsupported("extensible array chunk index")
-}
-func (d *dec) btree2Chunks(o *Object, sp *dataspace, lay *layoutMsg, chunkBytes uint64, rank int, what string) {
-	d.unsupported("version 2 B-tree chunk index")
-}
